@@ -165,7 +165,7 @@ func (H) Run(c *core.RunCtx) {
 		c.Anomaly("start: %v", err)
 		return
 	}
-	r := &run{c: c, n: n, db: "d" + NewTag(), shards: c.Plan.C("shards", 1)}
+	r := &run{c: c, n: n, db: "d" + NewTag(c), shards: c.Plan.C("shards", 1)}
 	if err := n.CreateDB(r.db, r.shards); err != nil {
 		c.Anomaly("create db: %v", err)
 		return
